@@ -13,18 +13,21 @@ namespace Pandora.Spec.C14
 
 inductive RunClass where
   | nil | canceled | limit | passes | noammo | other | noreturn | construct
+  | fatal      -- the process running the provider died of a fatal runtime error (e.g. concurrent map read and map write)
   deriving DecidableEq, Repr, Inhabited
 
 inductive EndClass where
-  | closed | blocked | spinning | norun
+  | closed | blocked | spinning | norun | crashed
   deriving DecidableEq, Repr, Inhabited
 
 def RunClass.name : RunClass → String
   | .nil => "nil" | .canceled => "canceled" | .limit => "limit" | .passes => "passes"
   | .noammo => "noammo" | .other => "other" | .noreturn => "noreturn" | .construct => "construct"
+  | .fatal => "fatal"
 
 def EndClass.name : EndClass → String
   | .closed => "closed" | .blocked => "blocked" | .spinning => "spinning" | .norun => "norun"
+  | .crashed => "crashed"
 
 /-- `none` = unbounded -/
 def expected (limit passes n : Nat) : Option Nat :=
@@ -115,5 +118,53 @@ def judge (c : Cell) (o : Obs) : String :=
   else if !chosenOk c o then s!"fail:chosen:delivered {o.s.seq} expected {expectedSeq c}"
   else if !endEquivOk o then s!"fail:equiv-end:streaming ends [run={o.s.run.name} end={o.s.end_.name}], preload [run={o.p.run.name} end={o.p.end_.name}]"
   else "ok"
+
+/-! ## round 2: the delivered REQUESTS (Host + headers, method, body), and a provider that kills its process
+
+`ehdr[i]` = the canonical text of the Host and headers a request of entry `i` must carry (what the source declares
+for that entry, completed from the `headers` option).  `shd` / `phd` = what the harness read off the delivered ammo:
+for every delivered entry id, ascending, the distinct texts its requests carried (`renderHd`). -/
+
+structure ObsH where
+  base : Obs
+  reqOk : Bool          -- every delivered request had the method and body of its entry
+  shd : String
+  phd : String
+  deriving Repr
+
+def insertNat (x : Nat) : List Nat → List Nat
+  | [] => [x]
+  | y :: ys => if x < y then x :: y :: ys else if x = y then y :: ys else y :: insertNat x ys
+
+/-- the distinct ids of a delivered sequence, ascending -/
+def distinctIds (seq : List Nat) : List Nat := seq.foldl (fun acc x => insertNat x acc) []
+
+/-- the `hd` text of a side on which every request of entry `i` carried exactly `ehdr[i]` -/
+def renderHd (ehdr : List String) (seq : List Nat) : String :=
+  match distinctIds seq with
+  | [] => "-"
+  | i :: is =>
+    let h := ehdr.getD i "?"
+    if is.all (fun j => ehdr.getD j "?" == h) then "*:" ++ h
+    else String.intercalate "|" ((i :: is).map fun j => toString j ++ ":" ++ ehdr.getD j "?")
+
+def fatalOk (o : Obs) : Bool := o.s.run != .fatal && o.p.run != .fatal
+def hdEquivOk (o : ObsH) : Bool := o.shd == o.phd
+def hdOk (ehdr : List String) (o : ObsH) : Bool :=
+  o.shd == renderHd ehdr o.base.s.seq && o.phd == renderHd ehdr o.base.p.seq
+
+def holdsH (c : Cell) (ehdr : List String) (o : ObsH) : Bool :=
+  fatalOk o.base && holds c o.base && o.reqOk && hdEquivOk o && hdOk ehdr o
+
+def judgeH (c : Cell) (ehdr : List String) (o : ObsH) : String :=
+  if o.base.s.run == .fatal then "fail:fatal:the streaming provider killed its process (fatal runtime error)"
+  else if o.base.p.run == .fatal then "fail:fatal:the preloaded provider killed its process (fatal runtime error)"
+  else
+    let j := judge c o.base
+    if j != "ok" then j
+    else if !o.reqOk then "fail:request:a delivered request does not have the method / body of its entry"
+    else if !hdEquivOk o then s!"fail:equiv-headers:streaming delivers requests with [{o.shd}], preload with [{o.phd}]"
+    else if !hdOk ehdr o then s!"fail:headers:delivered requests carry [{o.shd}], the source declares [{renderHd ehdr o.base.s.seq}]"
+    else "ok"
 
 end Pandora.Spec.C14
